@@ -207,10 +207,71 @@ def validate_traces(spec, cfg, files, scratch, env_extra=None, par=None, timeout
         return list(ex.map(one, files))
 
 
+SELFTEST = []          # filled when VERIF_SELFTEST is set: one record per trace specification used in this run
+
+
+def _numeric_leaves(x, path=()):
+    if isinstance(x, bool):
+        return
+    if isinstance(x, int):
+        yield path
+    elif isinstance(x, list):
+        for i, v in enumerate(x):
+            yield from _numeric_leaves(v, path + (i,))
+    elif isinstance(x, dict):
+        for k, v in x.items():
+            yield from _numeric_leaves(v, path + (k,))
+
+
+def binding_selftest(spec, cfg, files, scratch, samples=10, seed=1):
+    """Demonstrate that the trace specification constrains what was recorded: take recorded events, change ONE numeric
+    field of each by one, and count how many of the corrupted events TLC rejects (a rejected event or a failed evaluation)."""
+    import random
+    rng = random.Random(seed)
+    events = []
+    for f in files[:3]:
+        with open(f) as fh:
+            lines = fh.readlines()
+        for ln in rng.sample(lines, min(len(lines), 6)):
+            try:
+                events.append(json.loads(ln))
+            except ValueError:
+                pass
+    rng.shuffle(events)
+    out = []
+    fields = []
+    for k, ev in enumerate(events[:samples]):
+        leaves = list(_numeric_leaves(ev))
+        if not leaves:
+            continue
+        path = rng.choice(leaves)
+        tgt = ev
+        for key in path[:-1]:
+            tgt = tgt[key]
+        tgt[path[-1]] += 1
+        fp = scratch.path("selftest-%s-%d.ndjson" % (os.path.basename(spec).replace(".tla", ""), k))
+        with open(fp, "w") as fh:
+            fh.write(json.dumps(ev) + "\n")
+        out.append(fp)
+        fields.append(".".join(str(x) for x in path))
+    if not out:
+        return
+    rej = 0
+    accepted_fields = []
+    for (f, acc, r), fld in zip(validate_traces(spec, cfg, out, scratch, timeout=300), fields):
+        if (not acc) or '"TRACE-BAD"' in r.out:
+            rej += 1
+        else:
+            accepted_fields.append(fld)
+    SELFTEST.append({"trace_spec": os.path.basename(spec), "single_field_corruptions": len(out), "rejected": rej, "accepted_fields": accepted_fields})
+
+
 def validate_collect(spec, cfg, files, scratch, timeout=3000, heap="3g", max_bad=40):
     """Validate trace batches; every event is consumed by the trace spec, rejected ones are printed
     as TRACE-BAD <index>.  Returns (events_validated, [(file, index, event_dict)]).
     Raises Broken if TLC fails or a batch is not consumed completely."""
+    if os.environ.get("VERIF_SELFTEST") and files and not any(t["trace_spec"] == os.path.basename(spec) for t in SELFTEST):
+        binding_selftest(spec, cfg, files, scratch)
     results = validate_traces(spec, cfg, files, scratch, timeout=timeout, heap=heap)
     total = 0
     bad = []
@@ -400,6 +461,8 @@ class Check:
         ev = {"property_id": self.pid, "tier": self.tier, "seed": self.seed, "level": self.level,
               "coverage": self.cov, "assumptions": self.assumptions, "wall_s": round(wall, 2),
               "violations": len(self.violations), "known_findings_seen": self.known_hits, "notes": self.notes}
+        if SELFTEST:
+            self.cov["binding_selftest"] = list(SELFTEST)
         if not self.cov["samples"]:
             self.cov["samples"] = ["(no sample recorded)"]
         evdir = os.environ.get("VERIF_EVIDENCE_DIR", os.path.join(VERIF, "evidence"))    # seeded-change runs write elsewhere
